@@ -298,6 +298,16 @@ var c18Fixed = []string{
 	"{% set xs = [1] %}{{ xs|join }}",
 	"{% set m = {'z': 1} %}{{ m|keys|join }}",
 	"{% set a = 'changed' %}{% set n = n + 1 %}{% set nil = 1 %}{{ a }}{{ n }}{{ nil }}",
+	// the only assignment of the template hides inside another construct
+	"{% spaceless %}<p> {% set a = 'changed' %}{% set zz1 = 1 %} </p>{% endspaceless %}{{ a }}",
+	"{% spaceless %}{% for a in xs %}{{ a }}{% endfor %}{% endspaceless %}{{ a }}",
+	"{% do a = 'changed' %}{% do zz2 = 5 %}{{ a }}{{ zz2 }}",
+	"{% apply upper %}{% set a = 'changed' %}{% set zz3 = 1 %}{{ a }}{% endapply %}",
+	"{% if t %}{% if n %}{% set a = 'changed' %}{% set zz4 = 1 %}{% endif %}{% else %}{% set n = 0 %}{% endif %}{{ a }}",
+	"{% block b %}{% set a = 'changed' %}{% set zz5 = 1 %}{{ a }}{% endblock %}",
+	"{% block b %}{% spaceless %}{% import 'lib' as zz6 %}{% endspaceless %}{% endblock %}",
+	"{% verbatim %}{% set a = 1 %}{% endverbatim %}{% spaceless %}{% from 'lib' import f as zz7 %}{% endspaceless %}",
+	"{% macro mm(q) %}{% set a = q %}{{ a }}{% endmacro %}{{ mm('inner') }}{{ _self.mm(n) }}{{ a }}",
 	"{% set xs = xs|merge([4]) %}{% set xs = xs|sort %}{{ xs|join(',') }}",
 	"{% set m = m|merge({'a': 'over', 'new': 1}) %}{{ m.a }}{{ m.new }}",
 	"{% for a in xs %}{{ a }}{% endfor %}|{{ a }}",
